@@ -122,6 +122,19 @@ def run(e: Engine, rep: Report):
              'mis-paired')
     rep.tables.add('c10.RCPTTOS_RESETTERS')
     f12(e, rep)
+    rep.rule('F13', 'every code the reply parser takes off the wire is one '
+             'Reply.code accepts: position by position the code group of '
+             'reply_line_pattern lies inside code_pattern (a reply that was '
+             'consumed and then refused by the setter is lost: its Reply '
+             'stays empty, the ValueError comes out of whichever method '
+             'happened to flush)')
+    f13(e, rep)
+    rep.rule('F14', 'a reply that has been handed out leaves nothing '
+             'behind: any attribute of IO that recv_reply fills while it '
+             'assembles a reply (other than recv_buffer) is back to an '
+             'empty constant on every normal return - left-overs of a '
+             'finished reply are taken for the beginning of the next one')
+    f14(e, rep)
     rep.floor('F2', 14, 'command methods')
 
 
@@ -789,3 +802,113 @@ def f12(e: Engine, rep: Report):
     if n < 4:
         rep.error('anchor vanished: resets of LmtpClient.rcpttos (%d < 4)'
                   % n)
+
+
+# --------------------------------------------------------------------- F13
+def f13(e: Engine, rep: Report):
+    from .. import regexast as rx
+    pat = rx.module_pattern(e, 'slimta.smtp.io', 'reply_line_pattern')
+    cp = rx.module_pattern(e, 'slimta.smtp.reply', 'code_pattern')
+    if pat is None or cp is None:
+        rep.error('anchor vanished: reply_line_pattern / code_pattern')
+        return
+    items = list(rx.parse(pat[0], pat[1]))
+    cw = rx.fixed_charsets(list(rx.parse(cp[0], cp[1])), cp[1])
+    digits = set(range(48, 58))
+    code_cs = None
+    for k in range(1, 10):
+        gi = rx.find_group(items, k)
+        if not gi:
+            continue
+        cs = rx.fixed_charsets(gi, pat[1])
+        if cs and len(cs) == 3 and all(c and c <= digits for c in cs):
+            code_cs = cs
+            break
+    rep.evaluations += 1
+    mod = e.p.modules['slimta.smtp.reply']
+    if code_cs is None or cw is None or len(cw) != 3:
+        rep.unknown('F13', 'slimta.smtp.reply.code_pattern',
+                    'parsed codes are valid codes',
+                    'cannot read the code group of reply_line_pattern / the '
+                    'shape of code_pattern',
+                    loc='%s:%d' % (mod.relpath, cp[2].lineno))
+        return
+
+    def show(cs):
+        return ''.join(chr(c) for c in sorted(cs))
+    bad = [i for i in range(3) if not code_cs[i] <= cw[i]]
+    rep.check(not bad, 'F13', 'slimta.smtp.reply.code_pattern',
+              'parsed codes are valid codes',
+              'reply_line_pattern takes codes off the wire whose digit %s '
+              'may be one of `%s`, but Reply.code accepts only `%s` there: '
+              'such a reply is consumed (and its Reply popped from the '
+              'queue) and then refused with ValueError - the command it '
+              'answers never gets its reply' % (
+                  ', '.join(str(i + 1) for i in bad),
+                  show(code_cs[bad[0]]) if bad else '',
+                  show(cw[bad[0]]) if bad else ''),
+              loc='%s:%d' % (mod.relpath, cp[2].lineno),
+              reason='code group within code_pattern at every position')
+
+
+# --------------------------------------------------------------------- F14
+def f14(e: Engine, rep: Report):
+    ctx = e.method_ctx('slimta.smtp.io.IO', 'recv_reply')
+    g = e.build(ctx, raises=lambda b, n, r: set(),
+                inline=e.inline_same_self(deny=['buffered_recv',
+                                                'raw_recv']), max_depth=3)
+    where = ctx.func.qname
+    rep.functions.add(where)
+
+    def empty(v):
+        return (isinstance(v, ast.Constant) and not v.value) or (
+            isinstance(v, (ast.List, ast.Tuple, ast.Dict, ast.Set)) and
+            not (getattr(v, 'elts', None) or getattr(v, 'keys', None))) or (
+            isinstance(v, ast.Call) and not v.args and not v.keywords and
+            isinstance(v.func, ast.Name) and v.func.id in (
+                'list', 'dict', 'set', 'deque', 'bytearray', 'tuple'))
+    writes = {}
+    for n in g.of_kind('stmt'):
+        if not isinstance(n.ast, (ast.Assign, ast.AugAssign)):
+            continue
+        tg = n.ast.targets if isinstance(n.ast, ast.Assign) \
+            else [n.ast.target]
+        for t in tg:
+            for el in (t.elts if isinstance(t, (ast.Tuple, ast.List))
+                       else [t]):
+                q = path_of(el, n.frame) or ''
+                if q.startswith('self.') and q.count('.') == 1 and \
+                        q not in ('self.recv_buffer', 'self.socket'):
+                    writes.setdefault(q, []).append(n)
+    rets = [n for n in g.of_kind('stmt') if isinstance(n.ast, ast.Return)
+            and n.frame is g.entry.frame]
+    rep.evaluations += 1
+    if not writes:
+        rep.ok('F14', where, 'recv_reply keeps nothing but recv_buffer',
+               reason='no other attribute of IO is written while a reply is '
+               'assembled', nontrivial=False)
+        return
+    for q, ws in sorted(writes.items()):
+        def step(n, label, st, ws=ws, q=q):
+            if n in ws and not isinstance(label, tuple):
+                if isinstance(n.ast, ast.Assign) and empty(n.ast.value) and \
+                        len(n.ast.targets) == 1 and \
+                        path_of(n.ast.targets[0], n.frame) == q:
+                    return 'clean'
+                return 'dirty'
+            return st
+        for r in rets:
+            rep.evaluations += 1
+            w = dataflow.typestate_witness(
+                g, 'clean', step, lambda n, st, r=r: n is r and st == 'dirty')
+            rep.check(w is None, 'F14', where,
+                      '`%s` is empty again when the reply is handed out'
+                      % q.replace('self.', 'IO.'),
+                      'recv_reply can return a finished reply while %s '
+                      'still holds what it collected for it: the next call '
+                      'starts from those left-overs - with another code it '
+                      'raises BadReply, with the same code the lines of the '
+                      'finished reply turn up again in the next one'
+                      % q.replace('self.', 'IO.'), loc=r.loc(),
+                      reason='reset on every path to the return',
+                      witness=dataflow.render_path(w, 14) if w else None)
